@@ -67,7 +67,17 @@ func (pt *ParsedTable) ToMarkdown() string {
 		sb.WriteString("|")
 		colIdx := 0
 		for _, cell := range row.Cells {
+			span := cell.ColSpan
+			if span < 1 {
+				span = 1
+			}
 			if cell.IsCovered {
+				// Markdown has no merged cells: the covered grid positions stay
+				// empty so that the following cells keep their column
+				for i := 0; i < span; i++ {
+					sb.WriteString(" |")
+				}
+				colIdx += span
 				continue
 			}
 			// Replace newlines and pipes within cells
@@ -77,10 +87,9 @@ func (pt *ParsedTable) ToMarkdown() string {
 			sb.WriteString(" ")
 			sb.WriteString(text)
 			sb.WriteString(" |")
-
-			span := cell.ColSpan
-			if span < 1 {
-				span = 1
+			// the columns covered by a horizontal span
+			for i := 1; i < span; i++ {
+				sb.WriteString(" |")
 			}
 			colIdx += span
 		}
